@@ -211,6 +211,9 @@ pub struct PkceFlowCase {
     pub extras_in_url: Vec<(String, String)>,
     pub extras_in_body: Vec<(String, String)>,
     pub endpoint: String,
+    /// 0 default response type, 1 hybrid `code id_token`, 2 `code token`, 3 arbitrary custom
+    #[serde(default)]
+    pub response_type: u8,
 }
 impl CaseInput for PkceFlowCase {
     const OP: &'static str = "pkce_flow";
@@ -231,7 +234,7 @@ impl CaseInput for PkceFlowCase {
                 .map(|_| (r.pick(&["code_challenge", "code_verifier", "code_challenge_method", "x"]).to_string(), gen::hostile_s(r)))
                 .collect()
         };
-        PkceFlowCase { mode: r.below(4) as u8, verifier, extras_in_url: ex(r), extras_in_body: ex(r), endpoint: r.pick(super::authurl::AUTH_ENDPOINTS).to_string() }
+        PkceFlowCase { mode: r.below(4) as u8, verifier, extras_in_url: ex(r), extras_in_body: ex(r), endpoint: r.pick(super::authurl::AUTH_ENDPOINTS).to_string(), response_type: r.below(4) as u8 }
     }
     fn exec(&self) -> Exec {
         let client = BasicClient::new(ClientId::new("cid".into()))
@@ -249,7 +252,13 @@ impl CaseInput for PkceFlowCase {
                 (PkceCodeChallenge::from_code_verifier_plain(&v), v)
             }
         };
-        let mut a = client.authorize_url(|| CsrfToken::new("st".into())).set_pkce_challenge(challenge);
+        let rts = [ResponseType::new("code id_token".into()), ResponseType::new("code token".into()), ResponseType::new(self.verifier.chars().take(5).collect())];
+        let mut a = client.authorize_url(|| CsrfToken::new("st".into()));
+        if self.response_type > 0 {
+            // whatever the response type, a supplied challenge must reach the server
+            a = a.set_response_type(&rts[(self.response_type - 1) as usize]);
+        }
+        let mut a = a.set_pkce_challenge(challenge);
         for (k, v) in &self.extras_in_url {
             a = a.add_extra_param(k.clone(), v.clone());
         }
